@@ -89,6 +89,10 @@ def enumerate_faults(feat, text, lm, rng):
             continue
         yield ("cat:second-feature", at, insert(at, u"Feature: second"), at)
         yield ("cat:free-text-after-step", at, insert(at, u"  this is not a step"), at)
+        # free text whose first word merely STARTS like a step keyword is free text as well
+        word = [u"Thenceforth it works", u"Android is fine", u"Butter on top", u"Whenever it rains",
+                u"Givenchy is a name"][sl % 5]
+        yield ("cat:free-text-after-step-keywordlike", at, insert(at, u"    " + word), at)
     # Examples outside an outline
     for key, sl in lm.items():
         if "#" not in key:
